@@ -36,8 +36,8 @@ let merge (t : string list) (as_set : bool) : string =
         let limit = if lim = "-" then None else Some (n_of_string lim) in
         let out = Order.merger_run (asc = "1") (n_of_string off) limit rows in
         let ids = Stdlib.List.map (fun (_, r) -> int_of_n r) out in
-        let ids = if as_set then Stdlib.List.sort compare ids else ids in
-        "R " ^ Stdlib.String.concat "," (Stdlib.List.map string_of_int ids)
+        if as_set then "N " ^ string_of_int (Stdlib.List.length ids)
+        else "R " ^ Stdlib.String.concat "," (Stdlib.List.map string_of_int ids)
       end
   | _ -> "BADCASE"
 
